@@ -4,7 +4,7 @@ use super::{
     Literal, SatSolver,
 };
 use std::{
-    io::{Read, Write},
+    io::{Cursor, Read, Write},
     process::{Command, Stdio},
 };
 
@@ -93,9 +93,14 @@ fn exec_solver(mut reader: DimacsInstanceRead, program: &str, options: &[String]
         }
         stdin.flush()
     });
-    let stdout = child.stdout.take().expect("Failed to open stdout");
+    let mut stdout = child.stdout.take().expect("Failed to open stdout");
+    // the output must be consumed before waiting for the child: a solver blocked on a full pipe never exits
+    let mut output = Vec::new();
+    stdout
+        .read_to_end(&mut output)
+        .expect("failed to read child output");
     child.wait().expect("failed to wait on child");
-    Box::new(stdout)
+    Box::new(Cursor::new(output))
 }
 
 #[cfg(test)]
